@@ -30,6 +30,8 @@ type OpRec struct {
 	Arg    int
 	Start  int // scheduler step at which the call started
 	End    int
+	StartT time.Time
+	EndT   time.Time
 	Err    error
 	HasMsg bool
 	Msg    []byte
@@ -50,6 +52,7 @@ type HObs struct {
 	Deadline    time.Time
 	Returned    bool
 	ReturnStep  int
+	ReturnTime  time.Time
 	ReturnErr   error
 	CtxErr      error
 	Spec        connect.Spec
@@ -264,6 +267,7 @@ func (w *World) enter(ctx context.Context, hdr http.Header, spec connect.Spec) *
 func (w *World) leave(ctx context.Context, o *CallObs, err error) {
 	o.H.Returned = true
 	o.H.ReturnStep = stepsNow(w.S)
+	o.H.ReturnTime = time.Now()
 	o.H.ReturnErr = err
 	o.H.CtxErr = ctx.Err()
 }
@@ -284,6 +288,16 @@ func (e *ErrPlan) build(ctx context.Context) error {
 	if e.CtxErr {
 		<-ctx.Done()
 		return ctx.Err()
+	}
+	switch e.CtxKind {
+	case 1:
+		return context.Canceled
+	case 2:
+		return context.DeadlineExceeded
+	case 3:
+		return fmt.Errorf("handler gave up: %w", context.Canceled)
+	case 4:
+		return fmt.Errorf("handler gave up: %w", context.DeadlineExceeded)
 	}
 	if e.Plain {
 		return errors.New(e.Msg)
@@ -550,7 +564,7 @@ func (w *World) callCtx(o *CallObs) (context.Context, context.CancelFunc, func()
 		o.Call.Ctx.SetDeadline(o.StartTime.Add(d))
 		cleanup = c
 	}
-	if o.Plan.CancelTask || hasCancelOp(o.Plan) {
+	if o.Plan.CancelTask || o.Plan.CancelBefore || hasCancelOp(o.Plan) {
 		var c context.CancelFunc
 		ctx, c = context.WithCancel(ctx)
 		prev := cancel
@@ -583,6 +597,7 @@ func hasCancelOp(p *CallPlan) bool {
 
 func (w *World) rec(o *CallObs, rcv bool, r OpRec) {
 	r.End = stepsNow(w.S)
+	r.EndT = time.Now()
 	if rcv {
 		o.OpsRcv = append(o.OpsRcv, r)
 	} else {
@@ -607,6 +622,10 @@ func (w *World) runCall(t *core.Task, o *CallObs) {
 	if p.CancelTask {
 		w.S.Go(p.ID+"/canceller", func(*core.Task) { cancel() })
 	}
+	if p.CancelBefore {
+		w.opGate(o, "cancel")
+		cancel()
+	}
 	client := w.client(p)
 	switch p.Kind {
 	case KUnary:
@@ -619,7 +638,7 @@ func (w *World) runCall(t *core.Task, o *CallObs) {
 		req := connect.NewRequest(mkMsg(body))
 		req.Header().Set(callHeader, p.ID)
 		merge(req.Header(), p.ReqHeader)
-		r := OpRec{Op: "unary", Start: stepsNow(w.S)}
+		r := OpRec{Op: "unary", Start: stepsNow(w.S), StartT: time.Now()}
 		res, err := client.CallUnary(ctx, req)
 		r.Err = err
 		if err == nil && res != nil {
@@ -641,7 +660,7 @@ func (w *World) runCall(t *core.Task, o *CallObs) {
 			case "send":
 				w.opGate(o, "send")
 				t.SetWhere(p.ID + " Send")
-				r := OpRec{Op: "send", Arg: op.Arg, Start: stepsNow(w.S)}
+				r := OpRec{Op: "send", Arg: op.Arg, Start: stepsNow(w.S), StartT: time.Now()}
 				r.Err = stream.Send(mkMsg(p.ReqMsgs[op.Arg]))
 				w.rec(o, false, r)
 			case "cancel":
@@ -651,7 +670,7 @@ func (w *World) runCall(t *core.Task, o *CallObs) {
 		}
 		w.opGate(o, "closeandreceive")
 		t.SetWhere(p.ID + " CloseAndReceive")
-		r := OpRec{Op: "closeandreceive", Start: stepsNow(w.S)}
+		r := OpRec{Op: "closeandreceive", Start: stepsNow(w.S), StartT: time.Now()}
 		res, err := stream.CloseAndReceive()
 		r.Err = err
 		if err == nil && res != nil {
@@ -673,7 +692,7 @@ func (w *World) runCall(t *core.Task, o *CallObs) {
 		req := connect.NewRequest(mkMsg(body))
 		req.Header().Set(callHeader, p.ID)
 		merge(req.Header(), p.ReqHeader)
-		r := OpRec{Op: "callserverstream", Start: stepsNow(w.S)}
+		r := OpRec{Op: "callserverstream", Start: stepsNow(w.S), StartT: time.Now()}
 		stream, err := client.CallServerStream(ctx, req)
 		r.Err = err
 		w.rec(o, false, r)
@@ -691,7 +710,7 @@ func (w *World) runCall(t *core.Task, o *CallObs) {
 				for {
 					w.opGate(o, "recv")
 					t.SetWhere(p.ID + " Receive")
-					r := OpRec{Op: "recv", Start: stepsNow(w.S)}
+					r := OpRec{Op: "recv", Start: stepsNow(w.S), StartT: time.Now()}
 					ok := stream.Receive()
 					if ok {
 						r.HasMsg, r.Msg = true, cloneBytes(stream.Msg().Value)
@@ -721,7 +740,7 @@ func (w *World) runCall(t *core.Task, o *CallObs) {
 		}
 		w.opGate(o, "close")
 		t.SetWhere(p.ID + " Close")
-		r = OpRec{Op: "closeresp", Start: stepsNow(w.S)}
+		r = OpRec{Op: "closeresp", Start: stepsNow(w.S), StartT: time.Now()}
 		r.Err = stream.Close()
 		w.rec(o, false, r)
 	case KBidi:
@@ -736,20 +755,20 @@ func (w *World) runCall(t *core.Task, o *CallObs) {
 				case "send":
 					w.opGate(o, "send")
 					t.SetWhere(p.ID + " Send")
-					r := OpRec{Op: "send", Arg: op.Arg, Start: stepsNow(w.S)}
+					r := OpRec{Op: "send", Arg: op.Arg, Start: stepsNow(w.S), StartT: time.Now()}
 					r.Err = stream.Send(mkMsg(p.ReqMsgs[op.Arg]))
 					w.rec(o, rcv, r)
 				case "closereq":
 					w.opGate(o, "closereq")
 					t.SetWhere(p.ID + " CloseRequest")
-					r := OpRec{Op: "closereq", Start: stepsNow(w.S)}
+					r := OpRec{Op: "closereq", Start: stepsNow(w.S), StartT: time.Now()}
 					r.Err = stream.CloseRequest()
 					w.rec(o, rcv, r)
 				case "recv", "recvall":
 					for !stop {
 						w.opGate(o, "recv")
 						t.SetWhere(p.ID + " Receive")
-						r := OpRec{Op: "recv", Start: stepsNow(w.S)}
+						r := OpRec{Op: "recv", Start: stepsNow(w.S), StartT: time.Now()}
 						m, err := stream.Receive()
 						r.Err = err
 						if err == nil {
@@ -775,7 +794,7 @@ func (w *World) runCall(t *core.Task, o *CallObs) {
 					// one more Receive even after an error (stickiness probes)
 					w.opGate(o, "recv")
 					t.SetWhere(p.ID + " Receive")
-					r := OpRec{Op: "recvmore", Start: stepsNow(w.S)}
+					r := OpRec{Op: "recvmore", Start: stepsNow(w.S), StartT: time.Now()}
 					m, err := stream.Receive()
 					r.Err = err
 					if err == nil {
@@ -785,7 +804,7 @@ func (w *World) runCall(t *core.Task, o *CallObs) {
 				case "closeresp":
 					w.opGate(o, "closeresp")
 					t.SetWhere(p.ID + " CloseResponse")
-					r := OpRec{Op: "closeresp", Start: stepsNow(w.S)}
+					r := OpRec{Op: "closeresp", Start: stepsNow(w.S), StartT: time.Now()}
 					r.Err = stream.CloseResponse()
 					w.rec(o, rcv, r)
 				case "cancel":
